@@ -96,6 +96,8 @@ mod imp {
         let keep: usize = a.num("keep-matching", 300);
         let p_keep: f64 = a.num("p-keep", 0.02);
         let max_mis: usize = a.num("max-mismatch", 200);
+        let dedupe = a.flag("dedupe");
+        let mut seen: std::collections::HashSet<u64> = Default::default();
         let mut rng = StdRng::seed_from_u64(seed);
         let mut w = BufWriter::new(File::create(out).unwrap());
         let rd = BufReader::new(File::open(inp).unwrap());
@@ -114,6 +116,16 @@ mod imp {
             };
             let st: Value = serde_json::from_str(&inner).unwrap();
             let hist = st["hist"].as_array().cloned().unwrap_or_default();
+            if dedupe && hist.len() > 1 {
+                // TLC's simulator evaluates the emitting pseudo-invariant on EVERY successor of the
+                // last-but-one state: keep one history per prefix
+                use std::hash::{Hash, Hasher};
+                let mut hs = std::collections::hash_map::DefaultHasher::new();
+                serde_json::to_string(&hist[..hist.len() - 1]).unwrap().hash(&mut hs);
+                if !seen.insert(hs.finish()) {
+                    continue;
+                }
+            }
             behaviours += 1;
             let (mut mach, reset) = Machine::new(nt, &bad, rng.gen_range(0..1000), 16, 8, json!({"run": behaviours}));
             let mut evs = vec![reset];
